@@ -335,6 +335,32 @@ Proof.
 Qed.
 Print Assumptions C09_rl_wrappers_beyond.
 
+(* Iterator::nth (the std default: advance_by(n) + next over the crate's next) on one_iter() / zero_iter() / iter()
+   after ANY history cs of next / nth / len calls: with n at least the number of items left (in particular every
+   n >= count, up to 2^64-1), nth(n) = None, the following next() = None and len() = 0 - the
+   q_one_nth / q_zero_nth clauses of C09_bitvector_type_total_statement, for every history instead of "k x next".
+   [ones_all F 0] / [zeros_all F L 0] / [bits_all F L 0] (Spec/RunsIter.v) are the complete reference sequences,
+   [dq_run] the deque specification of C10; [lenA (fst (dq_run l cs))] is the number of items left after cs. *)
+Require Import SDS.Spec.Deque SDS.Spec.RunsIter SDS.Model.RLIters SDS.Proofs.RLDeque.
+Theorem C09_rl_nth_beyond : forall (m : mode) (R : list (N * N)) (L : N),
+  runs_sorted 0 R -> runs_end R <= L -> L <= 2 ^ 64 - 1 -> lenN R < 2 ^ 56 ->
+  exists v,
+    rl_build m (map (fun r => BTrySet (fst r) (snd r)) R ++ [BSetLen L]) = Ok (v, map (fun _ => true) R ++ [true]) /\
+    (forall cs n, Forall call_fwd cs -> lenA (fst (dq_run (ones_all (maximal R) 0) cs)) <= n ->
+       exists s s', rl_one_iter v = Ok s /\
+         it_run (rl_oi_step m v) s (cs ++ [Nth n; Next; Len]) =
+           Ok (s', snd (dq_run (ones_all (maximal R) 0) cs) ++ [Item None; Item None; Count 0])) /\
+    (forall cs n, Forall call_fwd cs -> lenA (fst (dq_run (zeros_all (maximal R) L 0) cs)) <= n ->
+       exists s s', rl_zero_iter m v = Ok s /\
+         it_run (rl_zi_step m v) s (cs ++ [Nth n; Next; Len]) =
+           Ok (s', snd (dq_run (zeros_all (maximal R) L 0) cs) ++ [Item None; Item None; Count 0])) /\
+    (forall cs n, Forall call_fwd cs -> lenA (fst (dq_run (bits_all (maximal R) L 0) cs)) <= n ->
+       exists s s', rl_iter v = Ok s /\
+         it_run (rl_bi_step m v) s (cs ++ [Nth n; Next; Len]) =
+           Ok (s', snd (dq_run (bits_all (maximal R) L 0) cs) ++ [Item None; Item None; Count 0])).
+Proof. exact rl_nth_beyond. Qed.
+Print Assumptions C09_rl_nth_beyond.
+
 (* non-vacuity: universe 2^64-1 with ones at 3, 4, 2^63 and 2^64-3, 2^64-2; the answers at the extremes *)
 Example C09_rl_example :
   (let* (v, _) := rl_build Release [BTrySet 3 2; BTrySet (2 ^ 63) 1; BTrySet (2 ^ 64 - 3) 2; BSetLen (2 ^ 64 - 1)] in
